@@ -2817,9 +2817,14 @@ struct has_get_header<
 template<
     typename View,
     typename = detail::enable_if_t<detail::has_get_header<View>::value>>
-constexpr std::size_t get_header_size(View view) noexcept
+constexpr std::size_t get_header_size(View) noexcept
 {
-    return sbepp::size_bytes(sbepp::get_header(view));
+    // header size is a static property, `sbepp::get_header(view)` must not be
+    // used here because it requires (and in checked builds asserts) that the
+    // buffer can hold the header, which is exactly what callers like
+    // `size_bytes_checked` want to find out
+    return sbepp::size_bytes(
+        decltype(sbepp::get_header(std::declval<View>())){});
 }
 
 template<
